@@ -24,6 +24,19 @@
 (*     by the plain constructor returns simple.Node values (token PlainTok).      *)
 (*     When SetEdge panics nothing is promised about the objects stored for    *)
 (*     its ends that are nodes of the graph: their token becomes AnyTok.          *)
+(*   - weights are TOKENS (small integers); which float64 a token stands for is *)
+(*     the harness's binding (token k -> float64(k) unless bound otherwise).    *)
+(*     init, self and absent are arbitrary float64 values for gonum, so the     *)
+(*     token AbsentW (and a self token) may be bound to NaN, +Inf or -Inf: the   *)
+(*     same histories are replayed under those bindings.  The model compares    *)
+(*     tokens (w = AbsentW): a weight equal to absent means "no edge" whatever  *)
+(*     float it is - absent is "the weight returned for absent edges",          *)
+(*     RemoveEdge "removes the edge" by storing it, a graph built with init =   *)
+(*     absent has no edges - so when absent is NaN a NaN weight is absent (NaN   *)
+(*     is the same value as NaN for this purpose, although NaN # NaN in IEEE     *)
+(*     arithmetic) and Weight / WeightedEdge / From / To / Edges /              *)
+(*     HasEdgeBetween / HasEdgeFromTo must all agree on it; a returned NaN      *)
+(*     equals the token bound to NaN.                                           *)
 (* Roles: R1 (the invariants below, over every history), R2 (generator: every  *)
 (* state with all query answers and every transition, replayed on the real     *)
 (* types).  GraphSetTrace.tla uses IsPerm / CtorEdges for the recorded         *)
@@ -108,6 +121,9 @@ PlainObj   == \A i \in nodes : (obj[i] = PlainTok) = (built = "plain")
 DPanicLeavesUnchanged == [][last' = "panic" => UNCHANGED <<nodes, edges, built>>]_dvars
 
 (**************************** generator role (R2) ***************************)
+\* (the wrapper views - graph.Undirect / UndirectWeighted / Complement, GraphSet.tla - hand out the node
+\* objects "stored in the original graph": the "v" record carries obj as well)
 DEmitState ==
-  Emit => PrintT(ToJson(StateAnswers @@ [built |-> built, obj |-> {<<i, obj[i]>> : i \in nodes}]))
+  Emit => /\ PrintT(ToJson(StateAnswers @@ [built |-> built, obj |-> {<<i, obj[i]>> : i \in nodes}]))
+          /\ PrintT(ToJson(ViewAnswers @@ [built |-> built, obj |-> {<<i, obj[i]>> : i \in nodes}]))
 =============================================================================
